@@ -188,17 +188,11 @@ pub fn check_fsinfo(it: &Interp, vt: &VolTrack) -> Option<Failure> {
             return Some(fail("C16", "unknown-count-became-known", format!("slot {}: free count was unknown at mount, now {}", vt.slot, s1)));
         }
     } else {
-        let exp = s0 as i64 + (f1 as i64 - f0 as i64);
-        // exactness is only demanded when the running value can never have left
-        // the representable range: the stored count started at or above the
-        // true number of free entries and far enough below u32::MAX
-        let exact = s0 >= f0 && (s0 as u64) + (vt.lay.clusters as u64) < 0xFFFF_FFFE;
-        if !exact {
-            // a stale-low count saturates at zero on the way; it can then only be too high
-            if (s1 as i64) < exp.max(0) {
-                return Some(fail("C16", "free-count-drift", format!("slot {}: stored free count {} -> {} is below {} although free FAT entries went {} -> {}", vt.slot, s0, s1, exp, f0, f1)));
-            }
-        } else if (0..=0xFFFF_FFFEi64).contains(&exp) && s1 as i64 != exp {
+        // "changed by exactly the change in the number of free FAT entries since mount"; a stale
+        // record can make the exact value unrepresentable, in which case the nearest storable
+        // count (0, or the largest value that does not mean "unknown") is what can be stored
+        let exp = (s0 as i64 + (f1 as i64 - f0 as i64)).clamp(0, 0xFFFF_FFFE);
+        if s1 as i64 != exp {
             return Some(fail(
                 "C16",
                 "free-count-drift",
@@ -206,12 +200,10 @@ pub fn check_fsinfo(it: &Interp, vt: &VolTrack) -> Option<Failure> {
             ));
         }
     }
-    let hint_was_sane = n0 == 0xFFFF_FFFF || (n0 >= 2 && n0 < vt.lay.clusters + 2);
-    // A hint that was already wrong at mount and that the crate left exactly as
-    // found is not the crate's doing; anything it *wrote* must be sane.
-    let _ = vt.changed_since_mount;
-    if (hint_was_sane || n1 != n0) && !(n1 == 0xFFFF_FFFF || (n1 >= 2 && n1 < vt.lay.clusters + 2)) {
-        return Some(fail("C16", "next-free-out-of-range", format!("slot {}: next-free hint {:#x} is neither unknown nor inside the volume ({} clusters)", vt.slot, n1, vt.lay.clusters)));
+    // "the next-free hint is unknown or a cluster inside the volume" - whatever it was at mount
+    let _ = (n0, vt.changed_since_mount);
+    if !(n1 == 0xFFFF_FFFF || (n1 >= 2 && n1 < vt.lay.clusters + 2)) {
+        return Some(fail("C16", "next-free-out-of-range", format!("slot {}: next-free hint {:#x} (at mount {:#x}) is neither unknown nor inside the volume ({} clusters)", vt.slot, n1, n0, vt.lay.clusters)));
     }
     None
 }
@@ -842,9 +834,9 @@ fn after_step(prop: &str, it: &Interp, ctx: &Ctx, info: &StepInfo) -> Option<Fai
             if let Some(f) = check_fat_copies(it, ctx) {
                 return Some(f);
             }
-            let dirty_flush = info.flushed_ok && info.file_pre.as_ref().map(|p| p.dirty).unwrap_or(false);
+            // "after a flush or volume close": every successful flush / close, dirty handle or not
             let vol_closed = info.kind == "CloseVolume" && info.ok;
-            if dirty_flush || vol_closed {
+            if info.flushed_ok || vol_closed {
                 if let Some(vt) = ctx.vols.iter().find(|v| Some(v.slot) == info.slot) {
                     return check_fsinfo(it, vt);
                 }
